@@ -148,10 +148,16 @@ TWO_SRC = 'THE MODEL OF TwoLevelCheckpointSchedule IS THE SOURCE: GenTwo.two_pro
 MULTI_SRC = 'THE MODEL OF MultistageCheckpointSchedule IS THE SOURCE: GenMulti.multi_prog_model is the program (generator language GenLang3) that harness/translate.py produces from MultistageCheckpointSchedule._iterator, the nested helper write(n) inlined at its two call sites; Gen/MultistageGen.v re-translates the current source on every run and proves it equal to that term by conversion.  For every parameter tuple the constructor accepts, resuming that program request by request gives under EVERY history of next() and finalize(k) calls exactly the observations (outcome, n, r, max_n, is_exhausted) of the schedule object of Model/Sched.v (srun_ops: Sched.next / Sched.finalize on the Multistage machine) -- so the Multistage theorems of this file, stated on the extracted model, are theorems about the translated source.  (The unit total self._snapshots_in_ram + self._snapshots_on_disk is read as the length of the label tuple self._storage, which is what __init__ recounts them from; the allocation of the labels, allocate_snapshots, is tied by the correspondence.)'
 CONV_SRC = 'THE CONVERTER OF THE FOUR REVOLVE-FAMILY CLASSES IS THE SOURCE: GenConv.conv_prog_model is the program (generator language GenLang4: the operation list with Python indexing, _convert_action, integer / boolean / storage / type-name locals, the set snapshots) that harness/translate.py produces from RevolveCheckpointSchedule._iterator; Gen/ConverterGen.v re-translates the current source on every run and proves it equal to that term by conversion (and Gen/ConvertGen.v does the same for _convert_action).  For Revolve, DiskRevolve, PeriodicDiskRevolve and HRevolve alike, every accepted parameter tuple and every history of next() and finalize(k) calls: as long as the hand-written machine (RevConv.next on the operation list of the class) does not raise, resuming the translated program gives exactly its observations (outcome, n, r, max_n, is_exhausted) -- raise_free is what the run theorems of this file establish for the four classes; after an exception the two may differ in n (the hand-written machine reports the error before it commits the updates of that iteration).  The operation list itself (the sequence generators) is tied by the correspondence'
 MIXED_SRC = 'THE MODEL OF MixedCheckpointSchedule IS THE SOURCE: GenMixed.mixed_prog_model is the program (generator language GenLang5: the stack snapshots of (step type, n0, n1) triples, the set snapshot_n, the planner read as a function, step-type / integer / boolean locals, break) that harness/translate.py produces from MixedCheckpointSchedule._iterator; Gen/MixedGen.v re-translates the current source on every run and proves it equal to that term by conversion.  For every planner the constructor can select (the table of mixed_steps_tabulation or mixed_step_memoization behind its cache) and under EVERY history of next() and finalize(k) calls, resuming that program request by request from the freshly constructed object gives exactly the observations (outcome, n, r, max_n, is_exhausted) of the schedule object of Model/Sched.v (hand-written machine Mixed.resume) -- up to the first exception the latter raises (raise_free: none on the documented domain, by the Mixed run theorems of this file); the invariant carried through is that the set snapshot_n holds exactly the distinct first components of the stack (GenMixed.sinv), which is why the model needs no set'
+SEQ_SRC = 'THE SEQUENCE GENERATORS ARE THE SOURCE: SeqGenSpec.revolve_shape / disk_revolve_shape / periodic_shape are the Gallina functions harness/translate.py (SeqTr) renders from revolve(), disk_revolve() and periodic_disk_revolve() of hrevolve_sequences/ -- every sequence.insert(operation(..)) appends one operation, insert_sequence(f(..).shift(k)) a recursively built list, the loops become for_down / while_, reads of the tables tget / lget with IndexError; Gen/SeqGen.v re-translates the current source on every run and proves the result equal to these terms by conversion.  They are proved equal, for all arguments, to the extracted RevSeq.revolve / RevSeq.disk_revolve / the body of RevSeq.periodic_top, on which every theorem about the Revolve family is stated; this is the top-level call of the constructor (RevConv.sequence) read on the translated source.  Not translated: the tables (get_opt_0_table, get_opt_inf_table), mxrr_close_formula and the Sequence / Operation classes of basic_functions.py (their flattening, shift and remove_useless_wm are Ops.v)'
+def seq_parts(pid):
+    return (lifted('%s_revolve_sequence_is_source' % pid, 'SeqGenSpec', 'revolve_top_is_source', SEQ_SRC)
+          + lifted('%s_disk_revolve_sequence_is_source' % pid, 'SeqGenSpec', 'disk_revolve_top_is_source', '... DiskRevolve')
+          + lifted('%s_periodic_sequence_is_source' % pid, 'SeqGenSpec', 'periodic_top_is_source', '... PeriodicDiskRevolve (the period is at least 1: PeriodGen.mxrr_pos)')
+          + lifted('%s_hrevolve_sequence_is_source' % pid, 'HSeqGenSpec', 'hrevolve_is_source', '... HRevolve: hrevolve_aux / hrevolve_recurse (mutually recursive; costs integers or +infinity) rendered by the translator (Gen/HSeqGen.v), proved equal to HRevSeq.aux / HRevSeq.recurse for every chain length l >= 0, with the test `the sequence built so far ends in a Discard` read as is_discard (last_op ..)'))
 files = {}
 for pid, cls in [('C01','C01'),('C02','C02'),('C03','C03'),('C04','C04'),('C08','C08'),('C12','C12')]:
     body = HEAD % (pid, TITLES[pid]) + safety(pid, cls, '')
-    body = body.replace("From CS Require Import Actions", "From CS Require Ops RevConv RevBridge4 RevolveRun Refuted DiskRun DiskBridge3 HRevRun HRevTop GenLang GenBasic GenLang2 GenTwo GenLang3 GenMulti GenLang4 GenConv GenLang5 GenMixed.\nFrom CS Require Import Actions")
+    body = body.replace("From CS Require Import Actions", "From CS Require Ops RevConv RevBridge4 RevolveRun Refuted DiskRun DiskBridge3 HRevRun HRevTop GenLang GenBasic GenLang2 GenTwo GenLang3 GenMulti GenLang4 GenConv GenLang5 GenMixed SeqGenSpec HSeqGenSpec.\nFrom CS Require Import Actions")
     if pid != 'C04':
         body += disk_safety(pid, cls)
         body += hrev_safety(pid, cls)
@@ -189,6 +195,7 @@ Print Assumptions C04_hrevolve_only_leftover_partial.
     body += lifted('%s_multistage_source_is_model' % pid, 'GenMulti', 'multi_from_start', MULTI_SRC)
     body += lifted('%s_revolve_family_converter_is_source' % pid, 'GenConv', 'conv_from_start', CONV_SRC)
     body += lifted('%s_mixed_source_is_model' % pid, 'GenMixed', 'mixed_from_start', MIXED_SRC)
+    body += seq_parts(pid)
     files[pid] = body
 
 
@@ -215,7 +222,7 @@ Proof. exact multistage_run. Qed.
 Print Assumptions C05_multistage_forward_total.
 
 """
-mk('C05', ['Inst','GW2','RevCost','BinomDP','RevConv','RevBridge4','RevolveRun','RevolveGW','Opt0Table','GenLang3','GenMulti'], [C05_total,
+mk('C05', ['Inst','GW2','RevCost','BinomDP','RevConv','RevBridge4','RevolveRun','RevolveGW','Opt0Table','GenLang3','GenMulti','SeqGenSpec'], [C05_total, lifted('C05_revolve_sequence_is_source', 'SeqGenSpec', 'revolve_top_is_source', SEQ_SRC),
    lifted('C05_multistage_source_is_model','GenMulti','multi_from_start',MULTI_SRC),
    lifted('C05_chain','Inst','C05_chain','TC (the forward work of the recursion n_advance defines) = n + E n k, and E n k = the Griewank-Walther closed form; E = the model of optimal_extra_steps'),
    lifted('C05_gw_main','GW2','GW_main','Griewank-Walther: DP value = schedule recursion = closed form, for any E, Eh satisfying the DP / recursion equations'),
@@ -243,7 +250,7 @@ mk('C06', ['MixInv','MixDP','GenLang5','GenMixed'], [C06_total,
    lifted('C06_plan_1','MixDP','plan_1',''), lifted('C06_plan_ge2','MixDP','plan_ge2','facts of the concrete planner model: the step kind and length it prescribes'),
    lifted('C06_plan_2','MixDP','plan_2',''), lifted('C06_C_ics','MixDP','C_ics','cost recurrence, restart checkpoint'), lifted('C06_C_adj','MixDP','C_adj','cost recurrence, adjoint-dependency checkpoint'),
    lifted('C06_planC_unfold_partial','MixDP','planC_unfold','PARTIAL: the planner value is the minimum over the candidates of its own recurrence (one-level unfolding); that no executable schedule whatsoever does better (Maddison 2024, Thm 1) is not proved')])
-mk('C07', ['RevCost','RevConv','RevBridge4','RevolveRun','Opt0Table','DiskCost','DiskCount','HRevTable','HRevCost','HRevCount'], [
+mk('C07', ['RevCost','RevConv','RevBridge4','RevolveRun','Opt0Table','DiskCost','DiskCount','HRevTable','HRevCost','HRevCount','SeqGenSpec','HSeqGenSpec'], [seq_parts('C07'),
    lifted('C07_revolve_forward_total','RevolveRun','revolve_forward_total','Revolve on the extracted model, every cost vector with uf > 0: forward steps at exhaustion = N + P s (N-1), P = the step-count DP (Opt0Table.P: minimum over all first splits); reversed steps = N by the run theorem; no DISK traffic (budget 0)'),
    lifted('C07_revolve_table_optimum','RevolveRun','revolve_table_optimum','... and the entry of the extracted get_opt_0_table for the whole problem is N ub + uf P s (N-1): stream cost uf*fwd + ub*N = table optimum + N uf, the memory-only optimum'),
    lifted('C07_opt0_values','Opt0Table','opt0_values','every entry of the table the generators read is (l+1) ub + uf P m l'),
@@ -281,12 +288,13 @@ Proof. exact twolevel_run. Qed.
 Print Assumptions C09_twolevel_passes.
 
 """
-mk('C09', ['MSTerm','OnlineFlags','Flags','RevConv','RevBridge4','RevolveRun','PassRepeat','Online','DiskRun','DiskBridge3','HRevRun','HRevTop','GenLang','GenBasic','GenLang2','GenTwo','GenLang3','GenMulti','GenLang4','GenConv','GenLang5','GenMixed'], [
+mk('C09', ['MSTerm','OnlineFlags','Flags','RevConv','RevBridge4','RevolveRun','PassRepeat','Online','DiskRun','DiskBridge3','HRevRun','HRevTop','GenLang','GenBasic','GenLang2','GenTwo','GenLang3','GenMulti','GenLang4','GenConv','GenLang5','GenMixed','SeqGenSpec','HSeqGenSpec'], [
    lifted('C09_basic_source_is_model','GenBasic','basic_from_start',BASIC_SRC),
    lifted('C09_twolevel_source_is_model','GenTwo','two_from_start',TWO_SRC),
    lifted('C09_multistage_source_is_model','GenMulti','multi_from_start',MULTI_SRC),
    lifted('C09_revolve_family_converter_is_source','GenConv','conv_from_start',CONV_SRC),
    lifted('C09_mixed_source_is_model','GenMixed','mixed_from_start',MIXED_SRC),
+   seq_parts('C09'),
    lifted('C09_flags','Flags','C09_flags','FLAGS, all thirteen classes, every parameter tuple the constructor accepts, every history of next() / finalize(k) requests (ops), any executor parameters: before the first request is_exhausted = is_running = False; after every next() is_running = True; is_exhausted after a request = (the final action of the class has been yielded so far) -- final_action: EndForward for None, EndReverse for the offline classes and SingleDisk(move), none for SingleMemory, SingleDisk(copy), TwoLevel; no action is yielded once the final action has been seen (only StopIteration / an exception), and finalize never changes the flag. flags_hist is the trace rule, defined in Proofs/OnlineFlags.v'),
    C09_runs,
    lifted('C09_multistage_flags_on_runs','MultistageRun','multistage_flags','the same rule read on the raise-free Multistage runs of the run theorem (every line: is_running, and is_exhausted = (the action is EndReverse), StopIteration only with is_exhausted)'),
@@ -370,7 +378,7 @@ Proof. exact twolevel_run. Qed.
 Print Assumptions C17_twolevel_complete.
 
 '''
-mk('C17', ['NAdv','AllocProofs','InvalidProofs','RevConv','RevBridge4','RevolveRun','RevBridge6','DiskRun','DiskBridge3','DiskGen','PeriodGen','HRevTotal','HRevTop'], [C17_complete,
+mk('C17', ['NAdv','AllocProofs','InvalidProofs','RevConv','RevBridge4','RevolveRun','RevBridge6','DiskRun','DiskBridge3','DiskGen','PeriodGen','HRevTotal','HRevTop','SeqGenSpec','HSeqGenSpec'], [C17_complete, seq_parts('C17'),
    lifted('C17_multistage_construct_total','AllocTotal','construct_total','the Multistage constructor returns for every tuple of the domain'),
    lifted('C17_allocate_total','AllocTotal','allocate_total','allocate_snapshots (dry run of the schedule with placeholder labels, weighing, top-k) never raises on the domain'),
    lifted('C17_n_advance_total','NAdv','n_advance_spec','n_advance never raises on its domain; range; limiting cases; optimal region'),
@@ -392,7 +400,7 @@ mk('C18', ['Repr','ActVal','ActValProofs','Ops','RevConv','RevBridge4','RevolveR
    lifted('C18_eq_iff_repr','ActValProofs','eq_iff_repr','== holds iff the reprs are equal'),
    lifted('C18_steps_enumerated','ActValProofs','steps_enumerated','Forward / Reverse covering n0 .. n1-1 (n0 <= n1): iteration yields a duplicate-free list of exactly the steps k with n0 <= k < n1, ascending for Forward and descending for Reverse, len is its length n1 - n0, and `k in a` holds exactly for its members'),
    lifted('C18_no_steps_elsewhere','ActValProofs','no_steps','Copy, Move, EndForward, EndReverse define none of len / iteration / membership (TypeError)')])
-mk('C19', ['PeriodProofs','PeriodShape'], [lifted('C19_periodic_shape','PeriodShape','periodic_shape','the whole operation sequence, every l = max_n - 1 >= 0 and cm >= 1: sweep ++ revolve(last segment) ++ (Read_disk + revolve(one period)) per disk checkpoint, last first; k disk checkpoints, written exactly while more than mx steps remain; the pieces come from the memory-only generator `revolve` on the opt_0 table (the generator of class Revolve: C07) and contain no disk operation; hence disk writes only in the sweep at 0, mx, ..., (k-1) mx, none afterwards, and each disk checkpoint is read exactly once'), lifted('C19_periodic_sweep_writes','PeriodProofs','periodic_sweep_writes','disk writes of the forward sweep are exactly at 0, m, 2m, ... while more than m steps remain'),
+mk('C19', ['PeriodProofs','PeriodShape','SeqGenSpec'], [lifted('C19_periodic_sequence_is_source', 'SeqGenSpec', 'periodic_top_is_source', SEQ_SRC),lifted('C19_periodic_shape','PeriodShape','periodic_shape','the whole operation sequence, every l = max_n - 1 >= 0 and cm >= 1: sweep ++ revolve(last segment) ++ (Read_disk + revolve(one period)) per disk checkpoint, last first; k disk checkpoints, written exactly while more than mx steps remain; the pieces come from the memory-only generator `revolve` on the opt_0 table (the generator of class Revolve: C07) and contain no disk operation; hence disk writes only in the sweep at 0, mx, ..., (k-1) mx, none afterwards, and each disk checkpoint is read exactly once'), lifted('C19_periodic_sweep_writes','PeriodProofs','periodic_sweep_writes','disk writes of the forward sweep are exactly at 0, m, 2m, ... while more than m steps remain'),
    lifted('C19_period_closed_form','PeriodProofs','periodic_period_closed_form','the period is beta(cm, tm) with tm the least t such that beta(cm+1, t) uf > wd + rd; independent of N')])
 
 for pid, body in files.items():
